@@ -552,7 +552,7 @@ class MapEqual(Validator):
     unequal = N_("%(labels)s and %(last_label)s do not match.")
 
     field_paths = ()
-    transform = lambda el: el
+    transform = staticmethod(lambda el: el)
 
     def __init__(self, *field_paths, **kw):
         r"""Construct a MapEqual.
